@@ -163,6 +163,12 @@ fn sweep(ctx: &Ctx, rep: &mut Report, check: &Checker) {
         (false, false) => (700, 160, 48), (true, false) => (3000, 400, 110),
         (false, true) => (500, 70, 40), (true, true) => (2000, 160, 80),
     };
+    // every case runs twice: through the allocating wrapper and through the
+    // `_with` form on objects shared by all cases (sizes vary from case to case)
+    let mut st64: kodama::LinkageState<f64> = kodama::LinkageState::new();
+    let mut d64: kodama::Dendrogram<f64> = kodama::Dendrogram::new(0);
+    let mut st32: kodama::LinkageState<f32> = kodama::LinkageState::new();
+    let mut d32: kodama::Dendrogram<f32> = kodama::Dendrogram::new(0);
     for c in oracle_cases(ctx, count, maxn, maxp) {
         tick(&ctx.progress, &c.describe());
         let out = run_fresh_w(c.wide, c.algo, c.method, c.n, &c.bits);
@@ -170,6 +176,13 @@ fn sweep(ctx: &Ctx, rep: &mut Report, check: &Checker) {
         if c.n >= 3 { rep.nontrivial.insert(c.key()); }
         if let Some(v) = check(ctx, &c, &out) {
             rep.violation(format!("{} violated: {} :: {}", ctx.prop, v, shorten(&c)));
+        }
+        tick(&ctx.progress, &format!("(reused state) {}", c.describe()));
+        let out2 = if c.wide { run_reused::<f64>(&mut st64, &mut d64, c.algo, c.method, c.n, &c.bits) }
+                   else { run_reused::<f32>(&mut st32, &mut d32, c.algo, c.method, c.n, &c.bits) };
+        rep.evaluations += 1;
+        if let Some(v) = check(ctx, &c, &out2) {
+            rep.violation(format!("{} violated on a reused LinkageState/Dendrogram (previous calls of this sweep, other sizes): {} :: {}_with {}", ctx.prop, v, ALGO_NAMES[c.algo as usize], shorten(&c)));
         }
         if c.n == 4 { rep.sample(format!("{} -> {}", c.describe(), join(&tokens(&out), " "))); }
     }
@@ -641,6 +654,7 @@ fn family_of(c: &AlgoCase, o: &Outcome) -> Option<Vec<(Vec<usize>, f64)>> {
 
 // ------------------------------------------------------------------ C07
 fn run_reused<T: Bits>(st: &mut kodama::LinkageState<T>, d: &mut kodama::Dendrogram<T>, algo: u8, method: u8, n: u64, bits: &[u64]) -> Outcome {
+    tick_global(&describe_call("call on a reused LinkageState/Dendrogram (used before for other sizes)", T::WIDE, algo, method, n, bits));
     let mut m: Vec<T> = bits.iter().map(|&b| T::from_bits64(b)).collect();
     match catch(|| call_with::<T>(algo, method, st, &mut m, n as usize, d)) {
         Ok(()) => Outcome::Ok { obs: d.observations(), steps: steps_of(d), after: m.iter().map(|x| x.to_bits64()).collect(), acc: 0 },
